@@ -37,6 +37,8 @@ def instances(tier, seed):
     add("repl:(2,1,1):angle-sym", dims=(2, 1, 1), N=3, symkind='angle', kinds=['angle', 'bond'], cost=10)
     add("repl:(2,1,1):history:failed-extend-elsewhere", dims=(2, 1, 1), N=2, symkind='bond', kinds=['bond'], history='failed-extend-elsewhere', cost=5)
     add("repl:(1,2,2):history:failed-extend-elsewhere", dims=(1, 2, 2), N=3, symkind=None, kinds=['bond', 'angle'], history='failed-extend-elsewhere', cost=5)
+    add("repl:(2,1,1):two-bonds-on-the-same-atoms", dims=(2, 1, 1), N=2, symkind=None, kinds=['bond'], double=['bond'], cost=5)
+    add("repl:(1,2,1):two-dihedrals-on-the-same-atoms", dims=(1, 2, 1), N=3, symkind=None, kinds=['dihedral', 'bond'], double=['dihedral'], cost=5)
     add("repl:(1,1,2):no-terms", dims=(1, 1, 2), N=2, symkind=None, kinds=[], cost=1)
     if tier == 'thorough':
         for t in [(2, 2, 2), (1, 3, 4), (4, 1, 3), (2, 3, 2), (3, 2, 1), (1, 1, 5)]:
@@ -66,6 +68,17 @@ def body(ctx, p):
         sp.extra[k] = [[f"sx{k}{c}" for c in range(len(lab))]]
         setattr(a, f'extra_{k}_fields', np.array(sp.extra[k], dtype=object).reshape((1, len(lab))) if lab
                 else np.full((1, 0), '.', dtype=object))
+    for k in p.get('double', []):
+        # a second term of the kind on the SAME atoms (a multi-term torsion, a bond listed once per periodic image: (0,1) and (1,0)), other type
+        ends0, ty0 = sp.terms[k][0]
+        ends1 = list(ends0)[::-1] if k == 'bond' else list(ends0)
+        ty1 = ctx.int(f"s{k[0]}{k[1]}dup", 0, 1)
+        sp.terms[k].append((ends1, ty1))
+        setattr(a, k + 's', np.array([list(ends0), ends1], dtype=object if ctx.sym else int))
+        setattr(a, k + '_types', np.array([ty0, ty1], dtype=object if ctx.sym else int))
+        lab = sp.extra_labels[k]
+        sp.extra[k] = [list(sp.extra[k][0]), [f"sx{k}dup{c}" for c in range(len(lab))]]
+        setattr(a, f'extra_{k}_fields', np.array(sp.extra[k], dtype=object).reshape((2, len(lab))) if lab else np.full((2, 0), '.', dtype=object))
     cell = [[ctx.real(f"c{r}{c}", -30, 30) for c in range(3)] for r in range(3)]
     a.cell = ctx.arr(cell) if ctx.sym else np.array(cell, dtype=float)
     before = spec_from_state(a)
@@ -82,6 +95,22 @@ def body(ctx, p):
     r = a.replicate(dims)
     with core.nosimplify():
         check(ctx, p, a, sp, before, cell, r, dims)
+    if len(r.positions) and p.get('edit_replica', True):
+        # HISTORY: the replica is then edited in place (moved, charges rescaled, re-grouped, first term re-typed): the original must not follow
+        r.translate((0.5, -1.25, 2.0))
+        r.charges *= 2
+        r.charges += 1
+        r.groups[:] = 9
+        r.atom_types[:] = 0
+        for k, _ in KINDS:
+            if len(getattr(r, k + '_types')):
+                getattr(r, k + 's')[0] = getattr(r, k + 's')[0][::-1].copy()
+        with core.nosimplify():
+            aft = spec_from_state(a)
+            ctx.require('the original is not modified by in-place edits of the replica (also for 1 x 1 x 1)',
+                        AND(aft.N == before.N, *[EQ(x, y) for x, y in zip(aft.types + aft.charges + aft.groups, before.types + before.charges + before.groups)],
+                            *[EQ(aft.pos[i][c], before.pos[i][c]) for i in range(before.N) for c in range(3)],
+                            *[EQ(x, y) for k, _ in KINDS for (e1, t1), (e2, t2) in zip(aft.terms[k], before.terms[k]) for x, y in list(zip(e1, e2)) + [(t1, t2)]]))
 
 
 def check(ctx, p, a, sp, before, cell, r, dims):
